@@ -19,43 +19,116 @@ import (
 //	val             decode the untampered bytes, compare the parser's signed portion with what the
 //	                signer was handed, run the REAL matching validator
 //	val <cuts>      the same over a segmented reader
-//	flipall         for EVERY bit of the packet: flip, decode, validate -> one verdict letter per bit
+//	flipall <cuts>  (c | own | 3,17) for EVERY bit of the packet: flip, decode, validate -> one verdict letter per bit
 //	                e = decode failed   r = validator rejected   a = validator accepted
 //	                n = decoded, no validator applies (unsigned)   p = panic
-//	flip <bit>      one position (replays)
+//	flip <bit> <cuts>   one position (replays)
+func tl(n int) int {
+	switch {
+	case n <= 0xfc:
+		return 1
+	case n <= 0xffff:
+		return 3
+	}
+	return 5
+}
+
+// overhead of SignatureInfo + SignatureValue (for the ESTIMATED size) per signer token, for the
+// steering shapes below (approximate on purpose: the generator sweeps a window around the target)
+var dataOverhead = map[string]int{"sha": 39, "hmac": 54, "ecc": 94, "rsa": 280, "t:72:60": 90, "t:300:200": 318, "t:253:252": 271}
+var intOverhead = map[string]int{"shaint": 62, "hmacint": 105, "eccint": 117, "rsaint": 303, "ecc": 94, "t:72:60": 90}
+
+// steered: a Data / Interest whose ESTIMATED value length sits at a TL-length boundary
+// (252..256, 65534..65538) so that a signature shorter than its estimate narrows the outer header
+func steered(r *common.Rand, g *common.Gen, interest bool) string {
+	targets := []int{252, 253, 253, 254, 254, 255, 256}
+	if r.Chance(1, 12) {
+		targets = []int{65534, 65535, 65536, 65536, 65537, 65537, 65538}
+	}
+	t := common.Pick(r, targets) + r.Range(-1, 1)
+	if !interest {
+		signer := common.Pick(r, []string{"ecc", "ecc", "ecc", "ecc", "sha", "hmac", "rsa", "t:72:60", "t:300:200", "t:253:252"})
+		o := dataOverhead[signer]
+		// name /8:61 (5) + MetaInfo (2) + content TL + n + overhead = t
+		n := t - 7 - o
+		n -= 1 + tl(n)
+		if n < 0 {
+			n = r.Range(0, 8)
+		}
+		g.Stat("steer-data")
+		return "mkd /8:61 - - - " + common.Hex(r.Bytes(n)) + " " + signer
+	}
+	signer := common.Pick(r, []string{"eccint", "eccint", "eccint", "ecc", "shaint", "hmacint", "rsaint", "t:72:60"})
+	o := intOverhead[signer]
+	// name /8:61 + digest (39) + parameters TL + n + overhead = t
+	n := t - 39 - o
+	n -= 1 + tl(n)
+	if n < 0 {
+		n = 0
+	}
+	g.Stat("steer-interest")
+	return "mki /8:61 0 0 - - - - " + common.Hex(r.Bytes(n)) + " " + signer
+}
+
 func gen(g *common.Gen) {
 	r := g.R
-	dataSigners := []string{"sha", "hmac", "ecc", "rsa", "hmaccert", "ecccert", "rsacert", "sha", "hmac", "ecc", "rsa", "none"}
-	intSigners := []string{"shaint", "hmacint", "eccint", "rsaint", "sha", "hmac", "ecc", "shaint", "hmacint", "eccint", "rsaint", "none"}
+	dataSigners := []string{"sha", "hmac", "ecc", "rsa", "hmaccert", "ecccert", "rsacert", "sha", "hmac", "ecc", "rsa", "none", "t:72:60"}
+	intSigners := []string{"shaint", "hmacint", "eccint", "rsaint", "sha", "hmac", "ecc", "shaint", "hmacint", "eccint", "rsaint", "none", "t:72:60"}
 	for i := 0; i < g.N; i++ {
 		g.Op("new")
 		sh := c03.Shape{Big: r.Chance(1, 10)}
 		var mk string
-		for {
-			if i%2 == 0 {
-				mk = c03.GenMkd(r, sh, g, common.Pick(r, dataSigners))
-			} else {
-				mk = c03.GenMki(r, sh, g, common.Pick(r, intSigners))
-			}
-			// keep the packet small enough for exhaustive bit flipping (RSA adds 256 bytes)
-			lim := 230
-			if strings.Contains(mk, " rsa") {
-				lim = 120
-			}
-			if c03.EstSize(mk) <= lim || r.Chance(1, 12) {
-				break
+		steer := i%3 == 2
+		if steer {
+			mk = steered(r, g, i%2 == 1)
+		} else {
+			for {
+				if i%2 == 0 {
+					mk = c03.GenMkd(r, sh, g, common.Pick(r, dataSigners))
+				} else {
+					mk = c03.GenMki(r, sh, g, common.Pick(r, intSigners))
+					// the usual shape of a signed Interest: EMPTY ApplicationParameters
+					if r.Chance(1, 3) {
+						f := strings.Fields(mk)
+						f[8] = common.Pick(r, []string{"[]", "-", "-,-"})
+						if f[9] == "none" && r.Chance(1, 2) {
+							f[9] = "shaint"
+						}
+						mk = strings.Join(f, " ")
+						g.Stat("params-empty")
+					}
+				}
+				// keep the packet small enough for exhaustive bit flipping (RSA adds 256 bytes)
+				lim := 230
+				if strings.Contains(mk, " rsa") {
+					lim = 120
+				}
+				if c03.EstSize(mk) <= lim || r.Chance(1, 12) {
+					break
+				}
 			}
 		}
 		g.Op("%s", mk)
 		size := c03.EstSize(mk)
 		g.Op("val c")
+		g.Op("val own")
 		g.Op("val %s", c03.GenCuts(r, size))
-		if size <= 560 {
-			g.Op("flipall")
+		if size <= 700 {
+			g.Op("flipall c")
+			// tampered bytes through a SEGMENTED reader as well: the encoder's own buffers / cuts
+			switch {
+			case common.Thorough():
+				g.Op("flipall own")
+				g.Op("flipall %s", c03.GenCuts(r, size))
+			case r.Chance(1, 2):
+				g.Op("flipall own")
+			default:
+				g.Op("flipall %s", c03.GenCuts(r, size))
+			}
 			g.Stat("flipall")
 		} else {
-			for k := 0; k < 64; k++ {
-				g.Op("flip %d", r.Intn(size*8))
+			for k := 0; k < 48; k++ {
+				g.Op("flip %d %s", r.Intn(size*8), common.Pick(r, []string{"c", "own", c03.GenCuts(r, size)}))
 			}
 			g.Stat("flip-sampled")
 		}
@@ -119,10 +192,16 @@ func exec(op string) string {
 	case "mkd":
 		out, b := c03.MakeData(f)
 		last, lastMkOut = b, out
+		if b != nil {
+			c03.OwnSegs = b.SegLens
+		}
 		return out
 	case "mki":
 		out, b := c03.MakeInterest(f)
 		last, lastMkOut = b, out
+		if b != nil {
+			c03.OwnSegs = b.SegLens
+		}
 		return out
 	case "cmp":
 		if lastMkOut == "" {
@@ -154,16 +233,24 @@ func exec(op string) string {
 		if bit >= 8*len(last.Wire) {
 			return "skip"
 		}
-		v, _ := decodeValidate(last, flipped(last.Wire, bit), "c")
+		cuts := "c"
+		if len(f) > 2 {
+			cuts = f[2]
+		}
+		v, _ := decodeValidate(last, flipped(last.Wire, bit), cuts)
 		return v
 	case "flipall":
 		if last == nil {
 			return "skip"
 		}
+		cuts := "c"
+		if len(f) > 1 {
+			cuts = f[1]
+		}
 		var sb strings.Builder
 		for bit := 0; bit < 8*len(last.Wire); bit++ {
 			w := flipped(last.Wire, bit)
-			v := common.Guard(func() string { v, _ := decodeValidate(last, w, "c"); return v })
+			v := common.Guard(func() string { v, _ := decodeValidate(last, w, cuts); return v })
 			if strings.HasPrefix(v, "PANIC") {
 				v = "p"
 			}
